@@ -103,3 +103,61 @@ Section Norm.
     | _ => None
     end.
 End Norm.
+
+(* ---- re-encoding a decoded value (C05) ---------------------------------------------------------- *)
+
+(* the Go value Decode returned, as the encoder's reflection sees it.  None: values that live in
+   the heap (maps, Dicts) or come from a PersistentLoad hook - outside the theorem's fragment *)
+Fixpoint reify (v : val) : option rval :=
+  match v with
+  | VNone => Some RNone
+  | VBool b => Some (RBool b)
+  | VInt z => Some (RInt z)
+  | VBig _ z => Some (RBig z)
+  | VFloat b => Some (RFloat b)
+  | VStr s => Some (RStr SPlain s)
+  | VBStr s => Some (RStr SByteString s)
+  | VBytes s => Some (RStr SBytes s)
+  | VBArr s => Some (RByteSeq s)
+  | VList _ l => option_map RList (map_opt reify l)
+  | VTuple l => option_map RTuple (map_opt reify l)
+  | VClass m n => Some (RClass m n)
+  | VCall m n l => option_map (RCall m n) (map_opt reify l)
+  | VRef p => option_map RRef (reify p)
+  | _ => None
+  end.
+
+(* what protocol c can carry without one of the documented limitations or a form the theorem
+   does not cover yet (the conditions mirror norm's) *)
+Fixpoint fits (c : econfig) (t : tval) : bool :=
+  match t with
+  | TNone | TBool _ | TBig _ => true
+  | TInt z => in_int64 z
+  | TFloat f => (1 <=? e_proto c)%Z && (f <? 2 ^ 64)
+  | TStr s => (1 <=? e_proto c)%Z && len32 s
+  | TBStr s => (1 <=? e_proto c)%Z && len32 s && e_strict c
+  | TBytes s => (3 <=? e_proto c)%Z && len32 s
+  | TBArr s => (5 <=? e_proto c)%Z && (Nlen s <? 2 ^ 63)
+  | TList l => forallb (fits c) l
+  | TTuple l => forallb (fits c) l
+  | TClass m n => class_ok c m n
+  | TCall m n l => class_ok c m n && plain_classb m n && forallb (fits c) l
+  | TRef p => (1 <=? e_proto c)%Z && fits c p
+  end.
+
+(* fits without the two conditions every decoded value meets by typing (C16): ints are int64 and
+   ByteString only occurs under StrictUnicode *)
+Fixpoint fits_proto (c : econfig) (t : tval) : bool :=
+  match t with
+  | TNone | TBool _ | TBig _ | TInt _ => true
+  | TFloat f => (1 <=? e_proto c)%Z && (f <? 2 ^ 64)
+  | TStr s => (1 <=? e_proto c)%Z && len32 s
+  | TBStr s => (1 <=? e_proto c)%Z && len32 s
+  | TBytes s => (3 <=? e_proto c)%Z && len32 s
+  | TBArr s => (5 <=? e_proto c)%Z && (Nlen s <? 2 ^ 63)
+  | TList l => forallb (fits_proto c) l
+  | TTuple l => forallb (fits_proto c) l
+  | TClass m n => class_ok c m n
+  | TCall m n l => class_ok c m n && plain_classb m n && forallb (fits_proto c) l
+  | TRef p => (1 <=? e_proto c)%Z && fits_proto c p
+  end.
